@@ -29,16 +29,6 @@ Record wf (c : chan) : Prop := {
   wf_self : c_self c = c_sender c \/ c_self c = c_recipient c
 }.
 
-(* channels.CreateNew *)
-Definition create_new (self tid basecid selector : N) (v : voucher) (initiator sender receiver : N) : chan :=
-  {| c_self := self; c_tid := tid; c_init := initiator;
-     c_resp := (if N.eqb sender initiator then receiver else sender);
-     c_basecid := basecid; c_selector := selector; c_sender := sender; c_recipient := receiver;
-     c_totalsize := 0; c_status := Requested; c_queued := 0; c_sent := 0; c_received := 0;
-     c_msg := EmptyString; c_vouchers := [v]; c_results := [];
-     c_rblocks := 0; c_qblocks := 0; c_sblocks := 0; c_limit := 0;
-     c_reqfin := false; c_rpaused := false; c_ipaused := false; c_stages := Some [] |}.
-
 Lemma create_new_wf self tid b s v i snd rcv :
   snd <> rcv -> (i = snd \/ i = rcv) -> (self = snd \/ self = rcv) ->
   wf (create_new self tid b s v i snd rcv).
